@@ -230,17 +230,22 @@ func replayC02(raw []byte, st *Stats, wk *worker, lays []abs.VLayout, c18 bool) 
 	for _, r := range v.Unspec {
 		unspec[r] = true
 	}
-	devOf := map[string][]c02DevViol{} // rule -> deviated verdicts
-	for _, d := range v.Dev {
-		devOf[d.R] = append(devOf[d.R], d)
-	}
-	specInvalid := len(v.Viol) > 0
-	anyUnspecSilent := false
+	// a rule the specification leaves open on this document is not asserted at all: neither its own
+	// verdict nor its contribution to the verdict of the whole document
 	for r := range unspec {
-		if len(viol[r]) == 0 {
-			anyUnspecSilent = true
+		delete(viol, r)
+	}
+	devOf := map[string][]c02DevViol{} // rule -> deviated verdicts
+	var devs []c02DevViol
+	for _, d := range v.Dev {
+		if !unspec[d.R] {
+			devOf[d.R] = append(devOf[d.R], d)
+			devs = append(devs, d)
 		}
 	}
+	v.Dev = devs
+	specInvalid := len(viol) > 0
+	anyUnspecSilent := len(unspec) > 0
 	if specInvalid || len(v.Doc.Frags) >= 2 {
 		st.Distinct("distinct_nontrivial", string(mustJSON(v.Doc)))
 	}
@@ -329,12 +334,12 @@ func replayC02(raw []byte, st *Stats, wk *worker, lays []abs.VLayout, c18 bool) 
 				report("rule "+r.Name+": panic escaped: "+o.Panic, nil)
 				return
 			}
-			if unspec[r.Name] && len(ids) == 0 {
+			if unspec[r.Name] {
 				st.Add("unspecified_not_asserted", 1)
 				continue
 			}
 			if (o.N > 0) == (len(ids) > 0) {
-				if o.N > 0 && !unspec[r.Name] {
+				if o.N > 0 {
 					if why := c02Locate(o, ids, at); why != "" {
 						report("rule "+r.Name+": location: "+why, map[string]interface{}{"errors": o.Msgs, "locations": o.Locs})
 						return
